@@ -176,6 +176,9 @@ def run_schedule(tmpl, opa, opb, plan, shared=True, opc=None):
         mid = None
         if opc is not None:
             mid = read_final(path, tmpl)[0]      # the state the overlapped pair left behind
+            if opc.get("cond") == -1:
+                # conditional on the version the collection now reports for that name
+                opc = dict(opc, cond=mid.get(opc["n"], 0) or 0)
             res["C"] = make_op(sa, tmpl, opc, flags, "C")()
         # what the long-lived store objects serve afterwards (must be the state on disk)
         views = []
